@@ -34,6 +34,7 @@ IDPS = {
     "I-keyname+signing": {"eid": "https://idp-i.example.org/md", "keys": [("signing", "keyname"), ("signing", 10)]},
     "J-signing+x509-without-certificate": {"eid": "https://idp-j.example.org/md", "keys": [("signing", 10), (None, "x509-without-certificate")]},
     "K-signing+empty-certificate": {"eid": "https://idp-k.example.org/md", "keys": [("signing", 11), ("signing", "empty-certificate")]},
+    "L-signing+descriptor-without-keyinfo": {"eid": "https://idp-l.example.org/md", "keys": [("signing", "descriptor-without-keyinfo"), ("signing", 2)]},
     # metadata that HOLDS signing keys whose certificates are outside their validity period (k12, k14 expired 2010/2011, k13 not valid before
     # 2090): the property's rule is about what metadata holds, so embedded certificates stay untrusted; whether a signature under such a
     # key is accepted is not asserted in either direction (certificate validity is not part of C03)
